@@ -87,3 +87,37 @@ def judge(h):
             return "the origin sent 'hello' and finished its sending direction; the client then sent one byte every %.1fs for %d bytes and closed: the origin received %d of them (client: %d sent, %s; origin saw end-of-stream: %s; client received %r)" % (
                 h["gap"], h["want"], h["got"], h["sent"], h["how"], h["origin_saw_eof"], h["client_got"])
     return None
+
+
+def read_all_origin(c, a, rec):
+    """only reads, to end-of-stream"""
+    c.settimeout(30)
+    while True:
+        d = c.recv(4096)
+        if not d:
+            break
+        rec["rx"] += d
+    rec["eof"] = True
+
+
+def upload_longer_than_idle(port_http, origin, n, gap):
+    """the client sends n numbered 16-byte records, one every `gap` seconds (longer in total than the idle period), to an
+    origin that only reads; every byte must arrive, in order"""
+    before = len(origin.records)
+    c, head, extra = e2e.http_connect(port_http, "%s:%d" % (LOOP, origin.port))
+    sent, err = b"", None
+    try:
+        for i in range(n):
+            time.sleep(gap)
+            rec_ = b"rec-%011d\n" % i
+            c.sendall(rec_)
+            sent += rec_
+        c.shutdown(socket.SHUT_WR)
+        e2e.recv_all(c, timeout=4.0)
+    except OSError as e:
+        err = str(e)
+    e2e.close_quiet(c)
+    time.sleep(0.3)
+    recs = origin.records[before:]
+    rx = bytes(recs[0]["rx"]) if recs else b""
+    return dict(kind="upload-longer-than-idle", want=len(sent), got=len(rx), intact=sent.startswith(rx) and len(rx) == len(sent), error=err, gap=gap, n=n)
